@@ -22,6 +22,8 @@ type NodeCall struct {
 	Arg    string
 	At     time.Duration
 	Round  int
+	// Failed: the node answered this call with an error (RecordFailed only)
+	Failed bool
 }
 
 // SimEthNode implements ethnode.EthNode: a recording node with a mutable peer
@@ -39,7 +41,11 @@ type SimEthNode struct {
 	Round   int
 	// FailNext[method] = number of upcoming calls of that method that fail
 	FailNext map[string]int
-	inFlight int
+	// FailAfter[method]: that many calls of the method succeed before FailNext applies
+	FailAfter map[string]int
+	// RecordFailed: calls that fail are recorded too (marked Failed) - the attempt is what the agent controls
+	RecordFailed bool
+	inFlight     int
 }
 
 var ErrNodeRPC = errors.New("node rpc error (injected)")
@@ -55,6 +61,10 @@ func (n *SimEthNode) fail(method string) bool {
 	n.mu.Lock()
 	defer n.mu.Unlock()
 	if n.FailNext[method] > 0 {
+		if n.FailAfter[method] > 0 {
+			n.FailAfter[method]--
+			return false
+		}
 		n.FailNext[method]--
 		return true
 	}
@@ -78,6 +88,11 @@ func (n *SimEthNode) record(method, arg string) error {
 	n.leave()
 	if n.fail(method) {
 		n.S.Fault("eth_rpc_error")
+		if n.RecordFailed {
+			n.mu.Lock()
+			n.Calls = append(n.Calls, NodeCall{Method: method, Arg: arg, At: n.S.Now(), Round: n.Round, Failed: true})
+			n.mu.Unlock()
+		}
 		return ErrNodeRPC
 	}
 	n.mu.Lock()
